@@ -16,7 +16,7 @@ import (
 // key alphabets: a key is an index into one of these
 var c13NumKeys = []string{"0", "1", "2", "-1", "10"}
 var c13StrKeys = []string{`"a"`, `""`, `"b"`, `"B"`, `"é"`}
-var c13NumSpell = []string{"1", "1.0", "1e0", "2", "10e-1", "2.0"}
+var c13NumSpell = []string{"1", "1.0", "1e0", "2", "10e-1", "2.0", "0", "-0", "-0.0", "0e3"}
 var c13BigKeys = []string{"9007199254740992", "9007199254740993", "9007199254740994", "12345678901234567890", "12345678901234567891", "0.1", "0.10000000000000001", "1e30", "-9007199254740993"}
 
 // strings that are prefixes of each other, also with trailing U+0000 and with a first difference after 8 and 16 bytes
@@ -25,7 +25,7 @@ var c13Spell = []string{"1", "1.0", "1e0", "2", `"a"`, `"b"`, `"é"`, `"😀"`, 
 
 // an op is a function, optionally followed by "/" and the expression that delivers the array (default: the document itself)
 var c13Ops = []string{"sort_by", "min_by", "max_by", "sort", "min", "max", "sort_by_self",
-	"sort_by/x[*]", "sort/x[*]", "sort_by_self/x[*]", "max_by/x[*]", "min/x[*]", "sort_by/(x)", "sort/x || z", "sort_by/x[:]", "sort/x[?`true`]", "sort_by/[x][0]", "sort/not_null(y, x)", "sort_by_nested", "sort_by[-1]", "sort_by[0]", "sort_by[1]", "sort[-1]", "sort_by_paren[-1]"}
+	"sort_by/x[*]", "sort/x[*]", "sort_by_self/x[*]", "max_by/x[*]", "min/x[*]", "sort_by/(x)", "sort/x || z", "sort_by/x[:]", "sort/x[?`true`]", "sort_by/[x][0]", "sort/not_null(y, x)", "sort_by_nested", "sort_by[-1]", "sort_by[0]", "sort_by[1]", "sort[-1]", "sort_by_paren[-1]", "reverse_sort_by", "reverse_sort", "reverse_sort_by/x[*]", "reverse_sort_by/(x)"}
 
 func init() {
 	core.Register(&core.Check{
@@ -141,6 +141,8 @@ func c13Check(r *core.Run, c c13Case, op string) *core.Violation {
 	}
 	paren := strings.HasSuffix(op, "_paren")
 	op = strings.TrimSuffix(op, "_paren")
+	reversed := strings.HasPrefix(op, "reverse_")
+	op = strings.TrimPrefix(op, "reverse_")
 	switch op {
 	case "sort_by", "min_by", "max_by":
 		expr, input = op+"(@, &k)", objs
@@ -175,6 +177,9 @@ func c13Check(r *core.Run, c c13Case, op string) *core.Violation {
 			expr = "(" + expr + ")"
 		}
 		expr += index
+	}
+	if reversed {
+		expr = "reverse(" + expr + ")" // the usual descending sort: the exact reverse of the stable order, input untouched
 	}
 	snapshot := core.Canon(core.Norm(input[:n+3]))
 	o := core.Search(expr, document)
@@ -230,6 +235,23 @@ func c13Check(r *core.Run, c c13Case, op string) *core.Violation {
 			return mk("wrong-element", "the element at "+index+" of the stable order: "+core.Canon(want))
 		}
 		return nil
+	}
+	if reversed {
+		for i, j := 0, n-1; i < j; i, j = i+1, j-1 {
+			idx[i], idx[j] = idx[j], idx[i]
+		}
+		if op == "sort" {
+			got, ok := o.Val.([]any)
+			if !ok || len(got) != n {
+				return mk("wrong-length", fmt.Sprintf("an array of %d elements", n))
+			}
+			for i := 1; i < n; i++ {
+				if c13Less(got[i-1], got[i]) {
+					return mk("unordered", "descending order")
+				}
+			}
+			return nil
+		}
 	}
 	switch op {
 	case "sort_by_self":
